@@ -937,15 +937,24 @@ class Variable(CanBehaveLikeAVariable[T]):
                 yield from self._yield_from_cache_or_instantiate_new_values_(sources, kwargs)
 
     def _evaluate_kwargs_expression_(self, sources: Optional[Dict[int, HashedValue]] = None):
-        self._evaluating_kwargs_expression_ = True
-        for v in self._kwargs_expression_._evaluate__(sources, yield_when_false=self._yield_when_false_):
+        values = self._kwargs_expression_._evaluate__(sources, yield_when_false=self._yield_when_false_)
+        while True:
+            # the flag tells this variable that it is asked for its domain by its own constraints. It is set only while
+            # the constraints are running: not while their evaluation is suspended at a result, and not after it was
+            # abandoned (the next evaluation would take the unconstrained domain for the constrained one).
+            self._evaluating_kwargs_expression_ = True
+            try:
+                v = next(values)
+            except StopIteration:
+                return
+            finally:
+                self._evaluating_kwargs_expression_ = False
             if self is self._conditions_root_ or isinstance(self._parent_, LogicalOperator):
                 self._is_false_ = self._kwargs_expression_._is_false_
                 if not self._is_false_ or self._yield_when_false_:
                     yield v
             else:
                 yield v
-        self._evaluating_kwargs_expression_ = False
 
     def _update_domain_and_kwargs_expression_(self):
         self._domain_source_ = From(self._cache_values_)
